@@ -605,7 +605,7 @@ def budget_scale(res):
 
 
 def run_histories(res, nhist, oracle, invalid_rate=0.0, blocks=True, modes=None, nops=(2, 7), gaprule=None,
-                  small=True, sessions=False, keep=False, far=False):
+                  small=True, sessions=False, keep=False, far=False, after_close=0.0):
     """Generate nhist histories, run each on the implementation and on the model, record
     model/implementation disagreements (reports after every call, final files) in res, and call
     oracle(cfg, ops, reports, files, chdir, model_reports, model_files) for the property's own checks."""
@@ -635,6 +635,17 @@ def run_histories(res, nhist, oracle, invalid_rate=0.0, blocks=True, modes=None,
                           cfg.order, cfg.is_complex, cfg.nsub)
                 sibling.add(i)
         ops = gen_ops(rng, cfg, rng.randrange(nops[0], nops[1] + 1), invalid_rate=invalid_rate, blocks=blocks, far=far)
+        if after_close and ops and ops[-1] == ("c",) and rng.random() < after_close:
+            # calls on a closed writer (also well-formed ones, also a second close): refused, nothing changes
+            tail = gen_ops(rng, cfg, rng.choice([1, 2]), invalid_rate=0.0, blocks=blocks, close=False)
+            last_tag = max([op[3] + op[2] for op in ops if op[0] == "w"] + [op[2] + op[1] for op in ops if op[0] == "b"] + [1])
+            shifted = []
+            for op in tail:
+                if op[0] == "w":
+                    shifted.append(("w", None if op[1] is None else op[1] + 10 ** 6, op[2], op[3] + last_tag))
+                else:
+                    shifted.append(("b", op[1], op[2] + last_tag, [g + 10 ** 6 for g in op[3]], list(op[4])))
+            ops = ops + shifted + ([("c",)] if rng.random() < 0.5 else [])
         hs.append((cfg, ops))
     model_out = common.run_model("writer", [encode_case(cfg, ops, gaprule) for cfg, ops in hs])
     ndis = 0
